@@ -33,14 +33,14 @@ func init() {
 		Rule: "metamorphic differential: scenario(i) (as in C01/C04/C07, restricted to the Library and Content services: REST routes, HttpBody, all client forms, success and error scripts) is executed against " +
 			"T_gen (services registered by name, generated Go types) and against a schema-source variant chosen by i: (a) descriptors re-built with protodesc.NewFile from the serialised FileDescriptorProtos in a private registry, " +
 			"with google/api/annotations.proto private too, so the http options are dynamic extension values; (b) the same plus a type resolver that knows nothing (forces the dynamicpb fallback); (c) a resolver that knows only some of the types; " +
-			"(d) a service descriptor that reports no parent file. Every 8th case runs the gRPC leg instead: vanguardgrpc.NewTranscoder(grpcServer) versus vanguard.NewTranscoder(NewService(name, grpcServer)) with the documented defaults, over " +
+			"(d) a service descriptor that reports no parent file. Every 16th case: a proto2 schema with an extension range, loaded dynamically, registered with GlobalTypes as resolver vs with the default resolver; payloads carry extensions nobody defines (binary field numbers in the range, JSON \"[name]\" keys) in requests and responses. Every 8th case runs the gRPC leg instead: vanguardgrpc.NewTranscoder(grpcServer) versus vanguard.NewTranscoder(NewService(name, grpcServer)) with the documented defaults, over " +
 			"grpc.Server.ServeHTTP in memory. oracle: equal canonical outcomes on both sides (backend-observed protocol, request line, decoded messages and validity; client-observed kind, code, status, decoded messages, validity), " +
 			"decoded by the harness with one descriptor set. non-trivial = a REST leg or the JSON codec is involved; distinct by (variant, cell, codecs, script shape)",
 		Assume: []string{"error message texts are not compared (they may name Go types)"},
 		N:      func(t string) int { return tierN(t, 12000, 240000) },
 		Run:    runC20,
 		MinimaFor: func(t string) map[string]int {
-			return map[string]int{"pairs-compared": tierN(t, 9000, 180000), "grpc-leg-compared": tierN(t, 900, 18000), "rest-or-json": tierN(t, 5000, 100000)}
+			return map[string]int{"pairs-compared": tierN(t, 9000, 180000), "grpc-leg-compared": tierN(t, 900, 18000), "rest-or-json": tierN(t, 5000, 100000), "ext-pairs-re-encoded-ok": tierN(t, 100, 2000)}
 		},
 	})
 }
@@ -439,6 +439,10 @@ func runC20(c *Ctx, i int, r *rand.Rand) {
 	}
 	if i%16 == 3 {
 		c20SamePathLeg(c, i, r)
+		return
+	}
+	if i%16 == 11 {
+		c20ExtensionLeg(c, i, r)
 		return
 	}
 	variant := c20Variants[i%len(c20Variants)]
